@@ -2,7 +2,19 @@
 (DESIGN.md appendix E)."""
 import re
 
-KINDS = ["truncate", "zero", "garbage", "bitflip", "drop", "dup", "swap", "torn", "stale"]
+KINDS = ["truncate", "zero", "garbage", "bitflip", "drop", "dup", "swap", "torn", "stale", "subst"]
+
+# 'subst': the scalar stored for one field is replaced by other text - what a misdirected write
+# of another field, a writer of another tool or a hand edit leaves behind.  The texts are the ones
+# the scalar parsers of a reader meet: other number spellings, other types, extremes.
+SUBST_TEXTS = [
+    "", " ", "None", "null", "~", "true", "1", "-1", "1.5", "1e400", "nan", "inf", "0x10",
+    "\u00b2", "\u0663", "\uff12\uff10\uff12\uff10-01-02", "9" * 5000, "(\u00b2,3)", "(1," + "9" * 5000 + ")",
+    "(1,2)", "(2,1)", "(None,None)", "(1,2,3)", "(-1,2)", "(1.0,2.0)", "[1, 2]", "[a, b]", "{a: 1}",
+    "2020-13-45", "2020-01-02", "12:34:56", "2020-01-02 03:04:05", "0000-00-00",
+    "5b6a1b40-2bd4-4a12-8f3c-0a1b2c3d4e5f", "not-an-id", "1.1", "1.0", "2", "int", "2-tuple",
+    "10-tuple", "bogus", "a/b", "..", "%s", "{0}", "\\", "&amp;", "a: b", "- x", "# c", "'", '"',
+]
 
 _TEXT_SPANS = re.compile(rb">([^<>\n]+)<")                 # XML text nodes
 _SCALARS = re.compile(rb"[:\-] +([^\n]+)\n|\"([^\"\n]*)\"")  # YAML scalars / JSON strings
@@ -109,6 +121,25 @@ def plan(rng, data, n_faults, kinds, has_old=True, aligned=None):
             l3 = min(lines, l2 + rng.randrange(0, 6))
             l4 = min(lines, l3 + rng.choice([1, 2, 4]))
             out.append({"kind": "swap", "l1": l1, "l2": l2, "l3": l3, "l4": l4})
+        elif kind == "subst":
+            spans = hot_spans(data)
+            if rng.random() < 0.3 or not spans:
+                spans = [m.span(1) for m in _TEXT_SPANS.finditer(data)] or \
+                    [m.span(1) if m.group(1) is not None else m.span(2)
+                     for m in _SCALARS.finditer(data)] or spans
+            spans = [sp for sp in spans if sp[1] > sp[0]]
+            if not spans:
+                out.append({"kind": "bitflip", "off": rng.randrange(max(1, len(data))),
+                            "bit": rng.randrange(8)})
+                continue
+            a, b = rng.choice(spans)
+            # keep the quotes and the comma of a JSON / YAML scalar: the text inside changes
+            while a < b and data[b - 1:b] in (b",", b" ", b"\r"):
+                b -= 1
+            if b - a >= 2 and data[a:a + 1] in (b'"', b"'") and data[b - 1:b] == data[a:a + 1]:
+                a, b = a + 1, b - 1
+            out.append({"kind": "subst", "off": a, "end": b,
+                        "text": rng.choice(SUBST_TEXTS)})
         elif kind == "torn":
             out.append({"kind": "torn", "k": rng.randrange(max(1, len(data)))})
         elif kind == "stale":
@@ -147,6 +178,9 @@ def apply(data, faults, old=None):
                 if a <= b <= c <= d:
                     lines = lines[:a] + lines[c:d] + lines[b:c] + lines[a:b] + lines[d:]
             data = b"\n".join(lines)
+        elif kind == "subst":
+            a, b = min(f["off"], len(data)), min(f["end"], len(data))
+            data = data[:a] + f["text"].encode("utf-8") + data[b:]
         elif kind == "torn":
             if old is not None:
                 k = min(f["k"], len(data))
